@@ -6,6 +6,7 @@ Part B: the same through a real StatusMonitor on a real n-stage experiment, with
 """
 import itertools
 import math
+import os
 from fractions import Fraction
 
 PROPERTY = 'C20'
@@ -19,6 +20,8 @@ RULE = ('Part C: a real StatusMonitor asks the REAL Controller (running under th
         '(current stage, finished/in-transit/not-started partition, per-stage progress in {0,.5,1}) assignment. '
         'Part B also: a stage transition of the (lock-aware) stand-in controller at EVERY call position of a status pass, 11/12/21 '
         'stages with distinct weights, default weights up to 130 stages and near-one sums. '
+        'Part A also loads legacy (DOSINI) packages with 2, 3, 11, 12 [13, 21, 101] stages whose status.conf lists distinct weights in '
+        'ascending / descending section order, or omits the sections of some stages. '
         'A case is non-trivial if it has >=2 stages or a non-default weight; distinct = distinct (part, weights, answers).')
 ASSUMPTIONS = [
     '"sum to one" is judged with tolerance 1e-6 on the result; given weights count as "already summing to one" when '
@@ -146,6 +149,69 @@ def check_part_a(col, ws, family):
         col.fail(case, r[0], {'got': got}, sig='A:%s:%s' % (family, r[1]))
     else:
         col.outcome('A:kept' if [float(g) for g in got] == [float(g) for g in given if is_num(g)] else 'A:normalised')
+
+
+# the same property through the legacy (DOSINI) package format: conf/status.conf with one [STAGE<i>] section per stage
+def dosini_cases(thorough):
+    ns = (2, 3, 11, 12) + ((13, 21, 101) if thorough else ())
+    for n in ns:
+        base = [round(0.01 * (i + 1), 2) for i in range(n - 1)] if n <= 13 else [round(0.001 * (i % 7 + 1), 3) for i in range(n - 1)]
+        ws = base + [round(1.0 - math.fsum(base), 6)]
+        assert min(ws) >= 0
+        for order in ('ascending', 'descending'):
+            yield {'n': n, 'weights': ws, 'order': order, 'omit': []}
+        if n >= 3:
+            # the sections of some stages are absent (their weight is missing)
+            yield {'n': n, 'weights': ws, 'order': 'ascending', 'omit': [0]}
+            yield {'n': n, 'weights': ws, 'order': 'ascending', 'omit': [1, n - 1]}
+
+
+def check_dosini(col, c):
+    import shutil, tempfile
+    import experiment.model.conf
+    d = tempfile.mkdtemp(prefix='c20d-', dir='/dev/shm')
+    case = dict(c, part='A-dosini')
+    col.evaluated()
+    col.nontriv(case)
+    try:
+        pkg = os.path.join(d, 'p.package')
+        os.makedirs(os.path.join(pkg, 'conf', 'stages.d'))
+        open(os.path.join(pkg, 'conf', 'experiment.conf'), 'w').write('[DEFAULT]\n')
+        for i in range(c['n']):
+            open(os.path.join(pkg, 'conf', 'stages.d', 'stage%d.conf' % i), 'w').write(
+                '[Work%d]\nexecutable=echo\narguments=stage %d\n' % (i, i))
+        idx = [i for i in range(c['n']) if i not in c['omit']]
+        if c['order'] == 'descending':
+            idx.reverse()
+        with open(os.path.join(pkg, 'conf', 'status.conf'), 'w') as f:
+            for i in idx:
+                f.write('[STAGE%d]\nstage-weight=%r\n\n' % (i, c['weights'][i]))
+        try:
+            conf = experiment.model.conf.ExperimentConfigurationFactory.configurationForExperiment(
+                pkg, createInstanceFiles=False, updateInstanceFiles=False, primitive=False)
+            st = conf.get_flowir_concrete(return_copy=False).get_status()
+            got = [st[i]['stage-weight'] for i in range(c['n'])]
+        except Exception as e:
+            col.outcome('A-dosini:rejected:%s' % type(e).__name__)
+            col.fail(case, 'a legacy package with %d stages and valid stage weights could not be loaded: %s: %s' % (
+                c['n'], type(e).__name__, str(e)[:200]), {}, sig='A-dosini:rejected:%s' % type(e).__name__)
+            return
+        given = [0.0 if i in c['omit'] else c['weights'][i] for i in range(c['n'])]
+        r = judge_weights(got, given if not c['omit'] else [-1.0] * c['n'], 'DOSINI.get_status')
+        if r is None and c['omit']:
+            r = None   # weights were incomplete: only "non-negative and summing to one" is required
+        if r:
+            col.outcome('A-dosini:FAIL:' + r[1])
+            col.fail(case, r[0], {'got': got}, sig='A-dosini:%s' % r[1])
+        else:
+            col.outcome('A-dosini:kept' if not c['omit'] else 'A-dosini:normalised')
+    finally:
+        shutil.rmtree(d, ignore_errors=True)
+
+
+def worker_a_dosini(col, item, tier, seed):
+    for c in item:
+        check_dosini(col, c)
 
 
 def worker_a(col, item, tier, seed):
@@ -514,6 +580,9 @@ def run(ctx):
     chunk = max(1, len(vs) // (ctx.jobs * 4) + 1)
     ctx.pmap('verif.props.c20', 'worker_a', [(i, min(len(vs), i + chunk)) for i in range(0, len(vs), chunk)])
     ctx.count('part_a_vectors', len(vs))
+    dc = list(dosini_cases(ctx.thorough))
+    ctx.count('part_a_legacy_packages', len(dc))
+    ctx.pmap('verif.props.c20', 'worker_a_dosini', [dc[i:i + 2] for i in range(0, len(dc), 2)])
     items = []
     for n in range(1, (5 if ctx.thorough else 4) + 1):
         seen = set()
@@ -538,6 +607,9 @@ def replay(ctx, case):
     if case['part'] == 'C':
         worker_c(ctx, (case['doc'], case['durations'], case['choices']), ctx.tier, ctx.seed)
         ctx.payload = []
+        return
+    if case['part'] == 'A-dosini':
+        check_dosini(ctx, {k: case[k] for k in ('n', 'weights', 'order', 'omit')})
         return
     if case['part'] == 'A':
         check_part_a(ctx, from_jsonable(case['weights']), case.get('family', 'replay'))
